@@ -7,7 +7,7 @@ PROP = {'n_quick': 700,
  'rule': 'random builder programs (0..12 ops: push_int over the whole i64 range incl. i64::MIN per profile, push_scriptint, push_slice with lengths on both '
          'sides of 75/76, 255/256, 65535/65536, push_opcode incl. the five foldable ones, push_verify) + fixed boundary programs + after every foldable (and 6 unfoldable) opcode every kind of push (empty/1-byte/2-byte slices, push_scriptint 0/+-1/16/17, push_int 0/-1/1..16/17, slices of 20..1000 bytes) followed by push_verify in 4 shapes + EVERY sequence of <= 4 (thorough <= 5) operations over a 9-symbol alphabet of operation kinds (2 foldable + 1 unfoldable opcode, empty slice, one-byte slice, PUSHDATA1 slice, push_scriptint 0, push_int 0, push_verify); script numbers +-2^k+-1 and '
          'random, read_scriptint on all 1-byte and sampled 0..6-byte strings; scripts: exact templates, near misses, witness version x program length grid, '
-         'PUSHDATA edge cases; sweep: for each template family every length 0..45 x leading opcode (24 interesting + random in quick, all 256 in thorough) x '
+         'PUSHDATA edge cases; for a canonical instance of every template ALL 256 values at EVERY byte position (one sweep case per position) and every one-byte deletion/insertion; sweep: for each template family every length 0..45 x leading opcode (24 interesting + random in quick, all 256 in thorough) x '
          'ALL 256 push-length bytes per case; distinct = distinct case text; non-trivial = builder program with >= 1 push and >= 1 opcode, or a script within '
          'distance 1 of a template',
  'trusted': ['i64 values are Z with an explicit range premise; `-i64::MIN` is modelled per profile (Debug panics, Release wraps) and the harness runs both '
